@@ -328,6 +328,17 @@ TOKCFGS = [
         span_matchers={'ML': r"(?P<END_ML>(.|\n)*?)'''"},
     ),
     TokCfg(
+        "skipped-name-is-also-a-synonym-key",
+        # remarks (#...#) are called COMMENT and skipped by that name; what the pattern calls COMMENT (a quoted
+        # note) is called DOC and is a token of the grammar
+        r"""(?P<SPACE>\s+)|(?P<REM>\#[^#\n]*\#)|(?P<COMMENT>"[^"\n]*")|(?P<W>[a-z]+)|(?P<EQ>=)""",
+        ['WORD', 'DOC', '='],
+        {'WORD': ['a', 'bc'], 'DOC': ['"x"', '""', '"a b"', '"#r#"'], '=': ['=']},
+        [" ", "\n", " #r# ", "#x y#", "  "],
+        synonyms={'REM': 'COMMENT', 'COMMENT': 'DOC', 'W': 'WORD', 'EQ': '='},
+        skip_tokens={'SPACE', 'COMMENT'},
+    ),
+    TokCfg(
         "catch-all-words",
         # a word is anything that is not blank, '=' or the mark character; the mark (U+FEFF, which text files may
         # start with) is a token of its own; words may hold other invisible characters
